@@ -22,12 +22,16 @@ pub struct TagWriter {
     pub backrefs: bool,
     /// emit non-minimal packed integers (extra continuation bytes) for some values
     pub pad_ints: u8,
+    /// write the first empty string as an explicit zero-length literal (which the reader remembers like any other
+    /// literal, shifting every later string's number) instead of the usual back-reference to the built-in ""
+    pub explicit_empty: bool,
+    wrote_empty_literal: bool,
     counter: u32,
 }
 
 impl TagWriter {
     pub fn new(backrefs: bool, pad_ints: u8) -> TagWriter {
-        let mut t = TagWriter { out: vec![], strings: HashMap::new(), next_string: 2, backrefs, pad_ints, counter: 0 };
+        let mut t = TagWriter { out: vec![], strings: HashMap::new(), next_string: 2, backrefs, pad_ints, explicit_empty: false, wrote_empty_literal: false, counter: 0 };
         t.out.extend_from_slice(&0xCAB0_0D1Eu32.to_le_bytes());
         t.out.extend_from_slice(&0xD011_FACEu32.to_le_bytes());
         t.strings.insert("".to_string(), 1);
@@ -64,6 +68,13 @@ impl TagWriter {
     }
 
     pub fn string(&mut self, s: &str) {
+        if s.is_empty() && self.explicit_empty && !self.wrote_empty_literal {
+            self.wrote_empty_literal = true;
+            self.packed(0);
+            self.strings.insert(String::new(), self.next_string);
+            self.next_string += 1;
+            return;
+        }
         if self.backrefs || s.is_empty() {
             if let Some(i) = self.strings.get(s) {
                 let i = *i;
